@@ -77,7 +77,12 @@ Definition lifetime_us (l : lifetime) : Z :=
 Definition in_a_while (now : Z) (l : lifetime) : Z := (now + lifetime_us l / 1000000)%Z.
 
 (* one section of the policy configuration, as far as this property reads it (None = key absent or None) *)
-Record section := { s_lifetime : option lifetime; s_nameid_format : option string }.
+Record section := { s_lifetime : option lifetime; s_nameid_format : option string;
+                    s_other : bool (* the section has some other key *) }.
+
+(* a section written {} is an empty dict (falsy); compile() leaves it untouched (spec = spec or {}) *)
+Definition section_empty (s : section) : bool :=
+  match s_lifetime s, s_nameid_format s with None, None => negb (s_other s) | _, _ => false end.
 
 (* Policy._restrictions: entity id / "default" / "" -> section, or None for `key: None`; [] = no restrictions *)
 Definition policy := list (string * option section).
@@ -93,8 +98,11 @@ Definition policy_get {A} (pol : policy) (attribute : section -> option A) (sp :
   | _ =>
     let sp_restrictions := dict_get pol sp in
     let ra_restrictions := match ra with Some r => dict_get pol r | None => None end in
-    let default_restrictions :=
-      match dict_get pol "default" with Some s => Some s | None => dict_get pol "" end in
+    let default_restrictions :=                      (* get("default") or get("") *)
+      match dict_get pol "default" with
+      | Some s => if section_empty s then dict_get pol "" else Some s
+      | None => dict_get pol ""
+      end in
     let restrictions :=
       match sp_restrictions with
       | Some s => Some s
@@ -142,10 +150,11 @@ Definition find_nameid (stored : list nid) (snq : string) (fmt : option (option 
                        && match fmt with None => true | Some f => opt_eqb String.eqb (n_format n) f end)
              stored 0.
 
-(* IdentDB.match_local_id(userid, sp_name_qualifier, name_qualifier) *)
+(* IdentDB.match_local_id(userid, sp_name_qualifier, name_qualifier), after "fix: match_local_id answered
+   non-persistent identifiers to persistent_nameid" (9057a062): only persistent-format identifiers count *)
 Definition match_local_id (stored : list nid) (spnq nq : string) : option (nat * nid) :=
   find_first (fun n =>
-    negb (opt_eqb String.eqb (n_format n) (Some NAMEID_FORMAT_TRANSIENT))
+    opt_eqb String.eqb (n_format n) (Some NAMEID_FORMAT_PERSISTENT)
     && ((truthy_s (n_spnq n) && opt_eqb String.eqb (n_spnq n) (Some spnq))
         || (negb (truthy_s (n_spnq n)) && is_empty spnq))
     && ((truthy_s (n_nq n) && opt_eqb String.eqb (n_nq n) (Some nq))
@@ -157,8 +166,8 @@ Record config := {
   c_entityid : string;
   c_sign_response : cfgv;                 (* service/idp/sign_response *)
   c_sign_assertion : cfgv;                (* service/idp/sign_assertion *)
-  c_signing_algorithm : option string;    (* signing_algorithm *)
-  c_digest_algorithm : option string;     (* digest_algorithm *)
+  c_signing_algorithm : option string;    (* service/idp/signing_algorithm *)
+  c_digest_algorithm : option string;     (* service/idp/digest_algorithm *)
   c_policy : policy;                      (* service/idp/policy *)
   c_domain : option string                (* service/idp/domain *)
 }.
@@ -236,12 +245,23 @@ Definition snq_of (x : input) : string :=
 Definition ra_for (x : input) (k : string) : option string :=
   if String.eqb k (a_sp (arg x)) then ra x else None.
 
-(* IdentDB.nim_args: the format of a constructed identifier *)
-Definition nim_format (x : input) : string :=
+(* IdentDB.nim_args as coded before d41562bb: the policy was asked for the format of the SPNameQualifier
+   (kept for the refutation theorem and the regression class of Corr.cls) *)
+Definition nim_format_v0 (x : input) : string :=
   match a_nidpolicy (arg x) with
   | Some p => if truthy_s (p_format p) then or_s (p_format p) ""
               else get_nameid_format (the_policy x) (snq_of x) (ra_for x (snq_of x))
   | None => get_nameid_format (the_policy x) (snq_of x) (ra_for x (snq_of x))
+  end.
+
+(* IdentDB.nim_args after "fix: nim_args looked the name-id format up under the SPNameQualifier instead of
+   the requester" (d41562bb): the format of a constructed identifier is the requested one, else the one the
+   policy configures for the requester *)
+Definition nim_format (x : input) : string :=
+  match a_nidpolicy (arg x) with
+  | Some p => if truthy_s (p_format p) then or_s (p_format p) ""
+              else get_nameid_format (the_policy x) (a_sp (arg x)) (ra x)
+  | None => get_nameid_format (the_policy x) (a_sp (arg x)) (ra x)
   end.
 
 (* IdentDB.get_nameid; name_qualifier = the provider's entity id; None = SAMLError *)
@@ -255,16 +275,19 @@ Definition get_nameid (x : input) (nformat : string) : option (nid * nsrc) :=
       else Some ({| n_format := Some nformat; n_spnq := Some spnq; n_nq := Some nq |}, Fresh)
   end.
 
-Definition choose_name_id (x : input) : option (nid * nsrc) :=
+(* nformat = the format nim_args resolves for a constructed identifier *)
+Definition choose_name_id_with (nformat : string) (x : input) : option (nid * nsrc) :=
   match a_name_id (arg x) with
   | Some n => Some (n, Given)
   | None =>
       let kwa_format := match a_nidpolicy (arg x) with Some p => Some (p_format p) | None => None end in
       match find_nameid (stored x) (snq_of x) kwa_format with
       | Some (k, n) => Some (n, Reused k)
-      | None => get_nameid x (nim_format x)
+      | None => get_nameid x nformat
       end
   end.
+
+Definition choose_name_id (x : input) : option (nid * nsrc) := choose_name_id_with (nim_format x) x.
 
 (* ---------------------------------------------------------------- update_farg *)
 Definition update_farg (in_response_to : option string) (consumer_url : string) (f : option farg) : farg :=
@@ -314,8 +337,8 @@ Definition signatures (x : input) : option (option (string * string) * option (s
   else Some (None, sa).
 
 (* ---------------------------------------------------------------- create_authn_response *)
-Definition create (x : input) : outcome :=
-  match choose_name_id x with
+Definition create_with (nformat : string) (x : input) : outcome :=
+  match choose_name_id_with nformat x with
   | None => Error ENameId
   | Some (name_id, src) =>
       let a := arg x in
@@ -346,6 +369,11 @@ Definition create (x : input) : outcome :=
             s_assertion := sa |}
       end
   end.
+
+Definition create (x : input) : outcome := create_with (nim_format x) x.
+
+(* the behaviour before d41562bb *)
+Definition create_v0 (x : input) : outcome := create_with (nim_format_v0 x) x.
 
 (* ---------------------------------------------------------------- the receiving side, by composition *)
 From Verif Require C01.Model C04.Model C05.Model C06.Model.
@@ -397,11 +425,12 @@ Definition in06 (s : spside) (r : issued) : C06.Model.input :=
      C06.Model.assertions := [ {| C06.Model.n_authn := match i_authn r with Some _ => 1 | None => 0 end;
                                   C06.Model.subject := Some [C06.Model.Data (i_irt r)] |} ] |}.
 
-(* what the four acceptance models do not look at: the issuer must be the provider the SP knows (its keys
-   are looked up under that name), the confirmation must be a bearer one, and an AuthnStatement without an
-   AuthnContext does not pass instance validation *)
+(* what the four acceptance models do not look at: a signature is checked with the keys the metadata holds
+   for the Issuer of the signed element, so that must be the provider the SP knows; the confirmation must be
+   a bearer one; an AuthnStatement without an AuthnContext does not pass instance validation *)
 Definition shape_ok (s : spside) (r : issued) : bool :=
-  String.eqb (r_issuer r) (sp_idp s) && String.eqb (i_issuer r) (sp_idp s)
+  match s_response r with Some _ => String.eqb (r_issuer r) (sp_idp s) | None => true end
+  && match s_assertion r with Some _ => String.eqb (i_issuer r) (sp_idp s) | None => true end
   && opt_eqb String.eqb (i_method r) (Some SCM_BEARER)
   && match i_authn r with Some (None, _) => false | _ => true end.
 
